@@ -50,6 +50,20 @@ def _one(job):
         except SyntaxError as e:
             report(f"{tag}: numba module is valid Python", False, dict(error=str(e), line=(n_src.splitlines()[e.lineno - 1][:200] if e.lineno else "")))
             return dict(file=rel, opts=opts, results=res)
+        # no module-level name is bound twice (a second binding would silently change what earlier kernels read)
+        tree = ast.parse(n_src)
+        bound = {}
+        for st in tree.body:
+            names = []
+            if isinstance(st, ast.Assign):
+                names = [t.id for t in st.targets if isinstance(t, ast.Name)]
+            elif isinstance(st, ast.FunctionDef | ast.ClassDef):
+                names = [st.name]
+            for nme in names:
+                bound[nme] = bound.get(nme, 0) + 1
+        dup = sorted(k for k, v in bound.items() if v > 1)
+        report(f"{tag}: numba module binds every module-level name once", not dup, dict(rebound=dup[:8]))
+        # kernels read only their own locals, their parameters, or module-level names bound once (imports, helpers)
         pc = D.parse_c(c_code[1])
         analysis = analyze_ufl_objects(objs, oc["scalar_type"])
         for name, st in pc["structs"].items():
